@@ -39,7 +39,7 @@ Qed.
 Theorem reorder_var_spec L s var al r s' :
   Gd L s → nozero s → levels_ok s al → is_Some (vars s !! var) →
   reorder_var var al s = (r, s') →
-  r = Err EOracle ∨
+  r = Err EOracle ∨ r = Err ERuntime ∨
   ∃ k al' lv, r = Ok (k, al') ∧ vars s !! var = Some lv ∧
     Stp L s s' ∧ levels_ok s' al' ∧ vperm (mv lv k) s s' ∧ len s' ≤ len s.
 Proof.
@@ -75,22 +75,24 @@ Proof.
                                       then ret ()
                                       else raise EAssert)
                                      (λ _ : (), ret (k, al2)))))))) s = (r, s') →
-    r = Err EOracle ∨
+    r = Err EOracle ∨ r = Err ERuntime ∨
     ∃ k al' lv0, r = Ok (k, al') ∧ Some lv = Some lv0 ∧ Stp L s s' ∧
       levels_ok s' al' ∧ vperm (mv lv0 k) s s' ∧ len s' ≤ len s).
   { intros start end_ Hs He Hbt Hse.
     (* first shift: to the nearer end *)
     destruct (shift lv start al s) as [r1 sA] eqn:E1.
     destruct (shift_spec L s lv start al r1 sA HG Hal Hlvn ltac:(lia) E1)
-      as [->|(sz1&alA&->&HSA&HalA&HpA&_)].
+      as [->|[->|(sz1&alA&->&HSA&HalA&HpA&_)]].
     { rewrite (bind_err _ _ _ _ _ E1). intros [= <- <-]. by left. }
+    { rewrite (bind_err _ _ _ _ _ E1). intros [= <- <-]. by right; left. }
     rewrite (bind_ok _ _ _ _ _ E1). cbv beta iota.
     pose proof HSA as (HGA&HnA&_).
     (* second shift: the full sweep *)
     destruct (shift start end_ alA sA) as [r2 sB] eqn:E2.
     destruct (shift_spec L sA start end_ alA r2 sB HGA HalA ltac:(lia) ltac:(lia) E2)
-      as [->|(sizes&alB&->&HSB&HalB&HpB&HVis&Hkeys&Hnil)].
+      as [->|[->|(sizes&alB&->&HSB&HalB&HpB&HVis&Hkeys&Hnil)]].
     { rewrite (bind_err _ _ _ _ _ E2). intros [= <- <-]. by left. }
+    { rewrite (bind_err _ _ _ _ _ E2). intros [= <- <-]. by right; left. }
     rewrite (bind_ok _ _ _ _ _ E2). cbv beta iota.
     pose proof HSB as (HGB&HnB&_).
     assert (HSsB : Stp L s sB) by (by apply (Stp_trans L s sA sB)).
@@ -98,7 +100,7 @@ Proof.
       by (by apply (vperm_comp _ _ s sA sB)).
     case_decide as Hsz.
     { (* a single variable *)
-      intros [= <- <-]. right. exists lv, alB, lv.
+      intros [= <- <-]. right. right. exists lv, alB, lv.
       assert (start = end_) as Ese.
       { destruct (decide (start = end_)) as [|Hne]; [done|exfalso].
         pose proof (Hkeys Hne lv Hbt) as Hk. rewrite Hsz in Hk. by apply elem_of_nil in Hk. }
@@ -122,8 +124,9 @@ Proof.
     (* third shift: back to the best position *)
     destruct (shift end_ k alB sB) as [r3 sC] eqn:E3.
     destruct (shift_spec L sB end_ k alB r3 sC HGB HalB ltac:(lia) ltac:(lia) E3)
-      as [->|(sz3&alC&->&HSC&HalC&HpC&_)].
+      as [->|[->|(sz3&alC&->&HSC&HalC&HpC&_)]].
     { rewrite (bind_err _ _ _ _ _ E3). intros [= <- <-]. by left. }
+    { rewrite (bind_err _ _ _ _ _ E3). intros [= <- <-]. by right; left. }
     rewrite (bind_ok _ _ _ _ _ E3). cbv beta iota. cbn [bind get].
     assert (HSsC : Stp L s sC) by (by apply (Stp_trans L s sB sC)).
     assert (HpsC : vperm (fun l => mv end_ k (mv start end_ (mv lv start l))) s sC)
@@ -147,7 +150,7 @@ Proof.
         |by apply (vperm_comp _ _ s sA sq)|apply vperm_id|].
       intros l0 _. rewrite mv_mv. apply mv_id. }
     rewrite bool_decide_eq_true_2 by done. rewrite (bind_ok _ _ sC tt sC) by done.
-    intros [= <- <-]. right. exists k, alC, lv. split_and!; try done.
+    intros [= <- <-]. right. right. exists k, alC, lv. split_and!; try done.
     apply (vperm_ext (fun l => mv end_ k (mv start end_ (mv lv start l)))); [done| |done].
     intros l _. by rewrite !mv_mv. }
   case_decide as Hd; apply Hgen; unfold between; try lia.
@@ -175,18 +178,19 @@ Lemma sift_fold L s0 : ∀ (names : list positive) s al r s',
   len s ≤ len s0 →
   (∀ p, p ∈ names → Nat.pred (Pos.to_nat p) ∈ dom (vars s0)) →
   foldM sift_body al names s = (r, s') →
-  r = Err EOracle ∨
+  r = Err EOracle ∨ r = Err ERuntime ∨
   ∃ al', r = Ok al' ∧ Stp L s0 s' ∧ nozero s' ∧ levels_ok s' al' ∧
          dom (vars s') = dom (vars s0) ∧ len s' ≤ len s0.
 Proof.
   induction names as [|p names IH]; intros s al r s' HS Hz Hal Hd Hle Hn.
-  - cbn [foldM]. intros [= <- <-]. right. by exists al.
+  - cbn [foldM]. intros [= <- <-]. right. right. by exists al.
   - cbn [foldM]. unfold sift_body at 1.
     destruct (reorder_var (Nat.pred (Pos.to_nat p)) al s) as [r1 s1] eqn:E1.
-    destruct (reorder_var_spec L s (Nat.pred (Pos.to_nat p)) al r1 s1 (proj1 HS) Hz Hal) as [->|(k&al1&lv&->&_&HS1&Hal1&Hp1&Hle1)];
-      [|exact E1| |].
+    destruct (reorder_var_spec L s (Nat.pred (Pos.to_nat p)) al r1 s1 (proj1 HS) Hz Hal) as [->|[->|(k&al1&lv&->&_&HS1&Hal1&Hp1&Hle1)]];
+      [|exact E1| | |].
     + apply elem_of_dom. rewrite Hd. apply Hn. left.
     + rewrite (bind_err _ _ _ _ _ (bind_err _ _ _ _ _ E1)). intros [= <- <-]. by left.
+    + rewrite (bind_err _ _ _ _ _ (bind_err _ _ _ _ _ E1)). intros [= <- <-]. by right; left.
     + rewrite (bind_ok _ _ s (k, al1).2 s1) by (by rewrite (bind_ok _ _ _ _ _ E1)).
       cbn [snd]. apply IH.
       * by apply (Stp_trans L s0 s s1).
@@ -200,7 +204,7 @@ Qed.
 Theorem apply_sifting_spec s L r s' :
   Inv s → Counts s L → last_len s = None →
   apply_sifting s = (r, s') →
-  r = Err EOracle ∨
+  r = Err EOracle ∨ r = Err ERuntime ∨
   (r = Ok tt ∧ Gd L s' ∧ nozero s' ∧ rr s' = rr s ∧
    dom (vars s') = dom (vars s) ∧ keepsH L s s' ∧ len s' ≤ len s).
 Proof.
@@ -229,7 +233,7 @@ Proof.
   destruct Hro as [->|(names&->&_&Hnames)].
   { rewrite (bind_err _ _ _ _ _ Epo). intros [= <- <-]. by left. }
   rewrite (bind_ok _ _ _ _ _ Epo).
-  destruct HkP as (Er&Em&Ei&Ev&El&Ell).
+  destruct HkP as (Er&Em&Ei&Ev&El&Ell&_).
   assert (HGP : Gd L sP).
   { split_and!.
     - apply (Inv_same s1); [|done]. split_and!; try done. by rewrite Er.
@@ -242,13 +246,14 @@ Proof.
   change (foldM _ al names) with (foldM sift_body al names).
   destruct (foldM sift_body al names sP) as [rf sF] eqn:Ef.
   destruct (sift_fold L sP names sP al rf sF (Stp_refl L sP HGP) HzP HalP eq_refl (le_n _))
-    as [->|(alF&->&HSF&HzF&HalF&HdF&HleF)]; [|exact Ef| |].
+    as [->|[->|(alF&->&HSF&HzF&HalF&HdF&HleF)]]; [|exact Ef| | |].
   - intros p Hp. apply Hnames in Hp. apply elem_of_map in Hp as (v&->&Hv).
     rewrite SuccNat2Pos.id_succ. cbn. by rewrite Ev.
   - rewrite (bind_err _ _ _ _ _ Ef). intros [= <- <-]. by left.
+  - rewrite (bind_err _ _ _ _ _ Ef). intros [= <- <-]. by right; left.
   - rewrite (bind_ok _ _ _ _ _ Ef). cbn [bind get]. unfold assert.
     assert (len sF ≤ len s1) as HleF1 by (unfold len in *; rewrite EsP in HleF; done).
-    rewrite bool_decide_eq_true_2 by done. intros [= <- <-]. right.
+    rewrite bool_decide_eq_true_2 by done. intros [= <- <-]. right. right.
     destruct HSF as (HGF&HnF&HkF&_). split_and!; try done.
     + rewrite HdF, Ev. by rewrite Hv1.
     + intros u Hu. destruct (Hk1 u Hu) as (V&V1&D1).
